@@ -211,6 +211,19 @@ def record(em, seed, K):
     """Two traces of one seeded problem: the ranks of J over enroll_iterations = 1..K, and the convergence
     fact at K_BIG iterations."""
     mach, stats, P, meta = problem(em, seed)
+    if seed % 2:
+        # a machine with a past: it has enrolled these very statistics OBJECTS before, when they held other counts
+        # (the caller accumulated more frames into them since): nothing of that may survive
+        saved = [(np.array(st.n), np.array(st.sum_px), np.array(st.sum_pxx), st.t) for st in stats]
+        for st in stats:
+            st.n = np.asarray(st.n) * 0.37 + 0.05
+            st.sum_px = np.asarray(st.sum_px) * 0.37
+            st.sum_pxx = np.asarray(st.sum_pxx) * 0.37
+        mach.enroll_iterations = 2
+        mach.enroll(stats)
+        for st, (n0, f0, s0, t0) in zip(stats, saved):
+            st.n, st.sum_px, st.sum_pxx, st.t = n0, f0, s0, t0
+        meta["machine_enrolled_the_same_objects_before"] = True
     (my, mx, mz), _, _ = P.mode()
     jmode = P.J(my, mx, mz)
     tol = 1e-9 * max(1.0, abs(jmode))
